@@ -681,6 +681,8 @@ def selftest(with_mutants=True):
                              ('Fence_root_late.cfg', 'FBFence.tla', 'RootReturnedBeforeWrite'),
                              ('Backup_nonatomic.cfg', 'FBBackup.tla', 'SlotsDistinct'),
                              ('Backup_twice.cfg', 'FBBackup.tla', 'RestoreGivesOldest'),
+                             ('Backup_twice_other.cfg', 'FBBackup.tla', 'RestoreGivesOldest'),
+                             ('Backup_twice_appendfirst.cfg', 'FBBackup.tla', 'RestoreGivesOldest'),
                              ('Hash_noD26.cfg', 'FBHash.tla', 'RecordedFresh')]:
         good, st, out = tlc.model_check(cfg, module, workers=8, timeout=300)
         hit = ('Invariant %s is violated' % inv) in out
